@@ -159,6 +159,9 @@ func writeTag(w io.Writer, tag *Tag, timestampDelta uint32) error {
 
 	// timestamp
 	timestamp := tag.Timestamp - timestampDelta
+	if int32(timestamp) < 0 { // 早于首个 tag（FLV 时间戳为 SI32），不回绕成巨大时间戳
+		timestamp = 0
+	}
 	binary.BigEndian.PutUint32(tagHeader[offset:], (timestamp<<8)|(timestamp>>24))
 	offset += 4
 
